@@ -250,38 +250,91 @@ def derive(aa, obj, d):
         return big[1::2, 1:3]
     raise ValueError(op)
 
+# ---- subclass instances: a grid that IS a Grid2D / Grid2DIrregular / Grid1D (/ ndarray) without being exactly that class
+# g["sub"]: "pav"        a trivial harness-defined subclass of the accepted class (class PavGrid2D(aa.Grid2D): pass ...)
+#           "pav2"       a subclass of that subclass (the accepted class is two steps up the MRO)
+#           "uniform"    aa.Grid2DIrregularUniform (the library's own subclass of Grid2DIrregular), built directly
+#           "upscale"    aa.Grid2DIrregularUniform.from_grid_sparse_uniform_upscale(g["sparse"], g["f"], g["ups"]); g["cs"] holds
+#                        the exact upscaled coordinates (computed by the generator with `upscaled`), checked by `holds`
+#           "pavuniform" a harness-defined subclass of aa.Grid2DIrregularUniform
+# The decorators must treat all of them as the accepted class: same container type, mask and entries.
+BASE_OF = {"mask": "Grid2D", "2d": "Grid2D", "irr": "Grid2DIrregular", "1d": "Grid1D", "raw": "ndarray"}
+BASE_NAMES = ("Grid2D", "Grid2DIrregular", "Grid1D", "ndarray")
+_SUB = {}
+def sub_class(aa, k, sub):
+    """the class of the input object for kind k and subclass tag sub (None: the accepted class itself)"""
+    base = {"Grid2D": aa.Grid2D, "Grid2DIrregular": aa.Grid2DIrregular, "Grid1D": aa.Grid1D, "ndarray": np.ndarray}[BASE_OF[k]]
+    if sub is None: return base
+    key = (BASE_OF[k], sub)
+    if key not in _SUB:
+        if sub == "pav": c = type("Pav" + base.__name__, (base,), {})
+        elif sub == "pav2": c = type("PavPav" + base.__name__, (sub_class(aa, k, "pav"),), {})
+        elif sub in ("uniform", "upscale"): c = aa.Grid2DIrregularUniform
+        elif sub == "pavuniform": c = type("PavGrid2DIrregularUniform", (aa.Grid2DIrregularUniform,), {})
+        else: raise ValueError(sub)
+        if not issubclass(c, base) or c is base: raise ValueError(sub)
+        _SUB[key] = c
+    return _SUB[key]
+def upscaled(sparse, f, ps):
+    """grid_2d_slim_upscaled_from, exactly: every sparse point becomes the f x f sub-pixel centres of a pixel of size ps around it"""
+    psy, psx = F(ps[0]), F(ps[1])
+    return [[F(y) + psy / 2 - j * (psy / f) - psy / f / 2, F(x) - psx / 2 + i * (psx / f) + psx / f / 2]
+            for y, x in sparse for j in range(f) for i in range(f)]
+def mro_names(obj): return [c.__name__ for c in type(obj).__mro__]
+def is_a(obj, name): return name in mro_names(obj)
+def base_name(obj):
+    """the accepted class the object is an instance of (first hit along its MRO)"""
+    return next((n for n in mro_names(obj) if n in BASE_NAMES), None)
+
 def build_grid(aa, g):
     k = g["k"]
     store = g.get("store", "slim")
+    sub = g.get("sub")
+    G2, GI, G1 = (sub_class(aa, kk, sub if BASE_OF[kk] == BASE_OF[k] else None) for kk in ("2d", "irr", "1d"))
     dt = int if g.get("dtype") == "int" else float      # integer arrays are kept as they are by the structures
     if k in ("mask", "2d"):
         mask = aa.Mask2D(mask=np.array(g["bits"], dtype=bool), pixel_scales=tuple(fl(v) for v in g["ps"]),
                          origin=tuple(fl(v) for v in g["org"]))
-        if k == "mask" and store == "slim": obj = aa.Grid2D.from_mask(mask=mask)
+        if k == "mask" and store == "slim":
+            obj = aa.Grid2D.from_mask(mask=mask)
+            # Grid2D's class methods build `Grid2D(...)` whatever class they are called on: a subclass instance with the very
+            # coordinates from_mask computed comes out of the subclass constructor
+            if sub: obj = G2(values=np.array(obj.array, copy=True), mask=mask)
         else:
             cs = exact_centres(g) if k == "mask" else frps(g["cs"])
             vals = np.array([[float(a), float(b)] for a, b in cs]).reshape(-1, 2)
             if dt is int and store == "slim": vals = vals.astype(int)
-            if store == "slim": obj = aa.Grid2D(values=vals, mask=mask)
-            elif store == "ctor_native": obj = aa.Grid2D(values=vals, mask=mask, store_native=True)
+            if store == "slim": obj = G2(values=vals, mask=mask)
+            elif store == "ctor_native": obj = G2(values=vals, mask=mask, store_native=True)
             else:
                 junk = [[fl(a), fl(b)] for a, b in g["junk"]]
                 full = to_native(flat_bits(g), [list(v) for v in vals], None)
                 it = iter(junk); full = [next(it) if v is None else v for v in full]
                 H, W = len(g["bits"]), len(g["bits"][0])
-                obj = aa.Grid2D(values=np.array(full).reshape(H, W, 2), mask=mask, store_native=True)
+                obj = G2(values=np.array(full).reshape(H, W, 2), mask=mask, store_native=True)
     elif k == "irr":
-        obj = aa.Grid2DIrregular(values=[(dt(F(a)), dt(F(b))) for a, b in g["cs"]])
-    elif k == "raw": obj = np.array([[dt(F(a)), dt(F(b))] for a, b in g["cs"]], dtype=dt).reshape(-1, 2)
+        vals = [(dt(F(a)), dt(F(b))) for a, b in g["cs"]]
+        if sub == "upscale":
+            obj = GI.from_grid_sparse_uniform_upscale(grid_sparse_uniform=np.array([[fl(a), fl(b)] for a, b in g["sparse"]]),
+                                                      upscale_factor=g["f"], pixel_scales=tuple(fl(v) for v in g["ups"]))
+        elif sub in ("uniform", "pavuniform"):
+            u = g.get("uni", {})
+            if u.get("nd"): vals = np.array(vals, dtype=dt).reshape(-1, 2)      # an [n, 2] array instead of a list of tuples
+            obj = GI(values=vals, shape_native=tuple(u["shape"]) if u.get("shape") else None,
+                     pixel_scales=tuple(fl(v) for v in u["ps"]) if u.get("ps") else None)
+        else: obj = GI(values=vals)
+    elif k == "raw":
+        obj = np.array([[dt(F(a)), dt(F(b))] for a, b in g["cs"]], dtype=dt).reshape(-1, 2)
+        if sub: obj = obj.view(sub_class(aa, "raw", sub))
     elif k == "1d":
         mask = aa.Mask1D(mask=np.array(g["bits"], dtype=bool), pixel_scales=fl(g["ps"]), origin=(fl(g["org"]),))
         xs = [fl(v) for v in g["xs"]]
-        if store == "slim": obj = aa.Grid1D(values=np.array(xs, dtype=dt), mask=mask)
-        elif store == "ctor_native": obj = aa.Grid1D(values=np.array(xs), mask=mask, store_native=True)
+        if store == "slim": obj = G1(values=np.array(xs, dtype=dt), mask=mask)
+        elif store == "ctor_native": obj = G1(values=np.array(xs), mask=mask, store_native=True)
         else:
             it = iter([fl(v) for v in g["junk"]])
             full = [next(it) if v is None else v for v in to_native(g["bits"], xs, None)]
-            obj = aa.Grid1D(values=np.array(full), mask=mask, store_native=True)
+            obj = G1(values=np.array(full), mask=mask, store_native=True)
     else: raise ValueError(k)
     for d in g.get("derive", []): obj = derive(aa, obj, d)
     return obj
@@ -289,7 +342,7 @@ def build_grid(aa, g):
 def stored_of(obj):
     """the entries of the object's array, as exact pairs (1-D: (0, x))"""
     a = np.array(obj.array if hasattr(obj, "array") else obj, dtype=float)
-    if type(obj).__name__ == "Grid1D": return [[F(0), frac(v)] for v in a.ravel()]
+    if is_a(obj, "Grid1D"): return [[F(0), frac(v)] for v in a.ravel()]
     return [[frac(r[0]), frac(r[1])] for r in a.reshape(-1, 2)]
 def fingerprint(obj):
     """everything a decorated call must leave as it was"""
@@ -355,6 +408,8 @@ def profile_class(aa, rmin):
     dec = aa.grid_dec
     from autoarray.geometry import geometry_util
 
+    class PavList(list): pass
+
     class Base:
         def __init__(self, u, rad=("euclid",)):
             self.u = u; self.rad = rad
@@ -367,6 +422,14 @@ def profile_class(aa, rmin):
             r = uapply(self.u, self.seen)
             if a.ndim == 3:          # a natively stored Grid2D: a function written for it returns results of native shape
                 r = [renative(x, a.shape[:2]) for x in r] if isinstance(r, list) else renative(r, a.shape[:2])
+            elif self.u.get("wrap") and getattr(self, "wrap_ok", False) and not isinstance(grid, np.ndarray):
+                # the function hands back autoarray structures (what a body that calls another decorated method returns)
+                # instead of bare ndarrays: the decorator must take their values all the same
+                def w(x):
+                    if x.shape[0] == 0: return x
+                    return aa.ArrayIrregular(values=x) if x.ndim == 1 else aa.Grid2DIrregular(values=x)
+                r = [w(x) for x in r] if isinstance(r, list) else w(r)
+            if self.u.get("lsub") and isinstance(r, list): r = PavList(r)      # a list subclass is a list: wrapped element by element
             return r
         # the profile's own geometry methods (what PyAutoGalaxy's profiles supply)
         def radial_grid_from(self, grid):
@@ -483,6 +546,7 @@ def profile_obj(aa, ci, pool):
         obj = cls(None)
         if pool is not None and ci.get("o") is not None: pool[key] = obj
     obj.u = ci["u"]; obj.rad = tuple(ci["rad"]) if op == "relocate" else ("euclid",)
+    obj.wrap_ok = op != "relocate"        # relocate alone hands the function's own result back: nothing to unwrap
     obj.seen = None; obj.seen_obj = None; obj.calls = 0; obj.tf_calls = 0
     for a in ("centre", "angle"):
         if a in obj.__dict__: del obj.__dict__[a]
@@ -588,7 +652,7 @@ def kind_of(ci, sh): return ci["op"] + ":" + sh["k"] + (":" + ci["dec"] if "dec"
 def variant_full(g):
     v = ([g["store"]] if g.get("store", "slim") != "slim" else []) + [d if isinstance(d, str) else d[0] for d in g.get("derive", [])]
     return ("+" + "+".join(v)) if v else ""
-def variant(g): return "+derived" if g.get("derive") else ""
+def variant(g): return ("+derived" if g.get("derive") else "") + ("+sub" if g.get("sub") else "")
 
 def run_case(inp):
     aa = import_aa()
@@ -618,7 +682,7 @@ def run_case(inp):
 #        | {"t": "edit", "gi": i, "k": stored index, "v": [y, x] | x, "comp": None | 0 | 1}      grid[k] = v  /  grid[k, comp] = v
 # The grid objects are built once and live through the history; nothing but the edits may change what they hold.
 def py_edit(obj, k, v, comp):
-    one_d = type(obj).__name__ == "Grid1D"
+    one_d = is_a(obj, "Grid1D")
     a = obj.array if hasattr(obj, "array") else obj
     if one_d: obj[k] = fl(v); return
     if a.ndim == 3:
@@ -819,6 +883,34 @@ def native_1d(rng, g):
     if rng.random() < 0.3: g["derive"] = g.get("derive", []) + [rng.choice(["copy", "add0", "slice", "wna"])]
     return g
 
+# ---- subclass instances of the accepted classes
+def add_sub(rng, g, p=0.35):
+    """make the grid an instance of a SUBCLASS of its accepted class (see build_grid); contents and storage stay as they are"""
+    if rng.random() >= p: return g
+    g = dict(g)
+    if g["k"] != "irr":
+        g["sub"] = rng.choice(["pav", "pav", "pav2"])
+        return g
+    sub = rng.choice(["pav", "pav2", "uniform", "uniform", "upscale", "upscale", "pavuniform"])
+    if sub == "upscale" and g.get("dtype") == "int": sub = "uniform"
+    g["sub"] = sub
+    if sub == "upscale":
+        f = rng.choice([1, 2, 2, 3, 4])
+        ns = max(1, min(3, len(g["cs"]) // (f * f)))
+        g["sparse"] = g["cs"][:ns]; g["f"] = f; g["ups"] = [rng.choice(PS), rng.choice(PS)]
+        g["cs"] = [[S(a), S(b)] for a, b in upscaled(g["sparse"], f, g["ups"])]
+    elif sub in ("uniform", "pavuniform"):
+        g["uni"] = {"nd": rng.random() < 0.5}
+        if rng.random() < 0.7: g["uni"]["ps"] = [rng.choice(PS), rng.choice(PS)]
+        if rng.random() < 0.5: g["uni"]["shape"] = [rng.randint(1, 6), rng.randint(1, 6)]
+    return g
+def flag_u(rng, u, g, op):
+    """result KINDS the decorators must take like plain ndarrays / lists: a list SUBCLASS, autoarray structures as values"""
+    u = dict(u)
+    if u["list"] and rng.random() < 0.4: u["lsub"] = True
+    if op != "relocate" and g["k"] != "raw" and rng.random() < 0.12: u["wrap"] = True
+    return u
+
 # ---- scaled copies
 def scale_grid(g, un):
     g = dict(g); g.pop("dtype", None)
@@ -826,6 +918,8 @@ def scale_grid(g, un):
     if "ps" in g: g["ps"] = sv(g["ps"]) if g["k"] == "1d" else [sv(v) for v in g["ps"]]
     if "org" in g: g["org"] = sv(g["org"]) if g["k"] == "1d" else [sv(v) for v in g["org"]]
     if "cs" in g: g["cs"] = [[sv(a), sv(b)] for a, b in g["cs"]]
+    if "sparse" in g: g["sparse"] = [[sv(a), sv(b)] for a, b in g["sparse"]]; g["ups"] = [sv(v) for v in g["ups"]]
+    if "uni" in g and g["uni"].get("ps"): g["uni"] = dict(g["uni"], ps=[sv(v) for v in g["uni"]["ps"]])
     if "xs" in g: g["xs"] = [sv(v) for v in g["xs"]]
     if "junk" in g: g["junk"] = [sv(v) for v in g["junk"]] if g["k"] == "1d" else [[sv(a), sv(b)] for a, b in g["junk"]]
     if "derive" in g: g["derive"] = [d if isinstance(d, str) else [d[0], sv(d[1])] for d in g["derive"]]
@@ -874,6 +968,7 @@ def rand_call(rng, g, centre0, homogeneous=False):
         st["rmin"] = rng.choice(RMINS + RMINS + [None]); st["centre"] = near; st["angle"] = list(rng.choice(ANGLES))
         st["nested"] = rng.random() < 0.5
         st["u"] = ufun("V" if st["dec"] == "array" else "P")
+    st["u"] = flag_u(rng, st["u"], g, op)
     return st
 
 def n_stored(g):
@@ -888,10 +983,13 @@ def rand_hist(rng, e=0, kinds=("mask", "2d", "irr", "1d", "raw"), force_native1d
     if rng.random() < 0.08: g0 = as_int(rng, g0)
     if g0["k"] == "1d" and (force_native1d or rng.random() < 0.5): g0 = native_1d(rng, g0)
     else: g0 = add_variant(rng, g0, native2d=rng.random() < 0.3, p_plain=0.4)
+    g0 = add_sub(rng, g0)
     grids = [g0]
     if rng.random() < 0.35:
         # a second grid of the same kind on an equal mask with other contents, served by the same profile objects
         g1 = dict(g0)
+        if g1.get("sub") == "upscale":                     # other contents: no longer the upscaled lattice
+            g1["sub"] = "uniform"; g1.pop("sparse"); g1["uni"] = {"ps": g1.pop("ups"), "nd": True}; g1.pop("f")
         if g1["k"] == "mask": g1["k"] = "2d"
         if g1["k"] == "1d": g1["xs"] = [S(F(rng.randint(-64, 64), 8)) for _ in g0["xs"]]
         else: g1["cs"] = pts(rng, len(g0["cs"]) if "cs" in g0 else n_coords(g0))
@@ -946,6 +1044,42 @@ def full_pts(rng, n):
         return rng.uniform(-8, 8) if t < 0.8 else rng.uniform(-1, 1) * 10 ** rng.randint(-6, 3)
     return [[S(Fraction(one())), S(Fraction(one()))] for _ in range(n)]
 
+def force_sub(rng, g, sub):
+    for _ in range(50):
+        h = add_sub(rng, g, p=1.1)
+        if h["sub"] == sub: return h
+    raise ValueError(sub)
+def sweep_case(rng, npf, k, sub, j, rep, op, dec):
+    centre = (F(rng.randint(-8, 8), 4), F(rng.randint(-8, 8), 4))
+    rmin = rng.choice(RMINS[2:])
+    g = rand_grid(rng, kinds=(k,), pts=lambda r, n: npf(r, n, c=centre if op == "stack" else (F(0), F(0)), rm=None if op == "stack" else rmin))
+    if k in ("mask", "2d", "1d") and op in ("make", "project") and rng.random() < 0.3:
+        g = native_1d(rng, g) if k == "1d" else add_variant(rng, g, native2d=True, p_plain=0.0)
+    g = force_sub(rng, g, ["pav", "pav2"][(j + rep) % 2] if sub == "alt" else sub)
+    want = "V" if dec == "array" or op == "project" else ("P" if dec else rng.choice("VP"))
+    u = flag_u(rng, rand_ufun(rng, want, allow_list=op != "project"), g, op)
+    inp = {"op": op, "grid": g, "u": u}
+    if dec: inp["dec"] = dec
+    if op == "project":
+        inp.update(centre=rng.choice(["absent", [S(centre[0]), S(centre[1])]]), angle=rng.choice(["absent"] + [list(a) for a in ANGLES]), rpc=bool(j % 2))
+    elif op == "relocate": inp.update(rmin=rmin, rad=["euclid"])
+    elif op == "stack":
+        inp.update(rmin=rmin, centre=[S(centre[0]), S(centre[1])], angle=list(rng.choice(ANGLES)), nested=bool((j + rep) % 2))
+    return inp
+def sub_sweep(rng, N):
+    npf = near_pts(RMINS, p0=0.0)
+    calls = [("make", "array"), ("make", "grid"), ("make", "vector"), ("project", None), ("relocate", None),
+             ("stack", "array"), ("stack", "grid"), ("stack", "vector")]
+    for rep in range(N):
+        for k, subs in (("mask", None), ("2d", None), ("1d", None), ("raw", None), ("irr", ["pav", "pav2", "uniform", "upscale", "pavuniform"])):
+            for sub in (subs or ["alt"]):
+                for j, (op, dec) in enumerate(calls):
+                    if k == "1d" and (op == "relocate" or (op == "stack" and dec == "vector")): continue
+                    for attempt in range(30):
+                        inp = sweep_case(rng, npf, k, sub, j, rep, op, dec)
+                        if not classify(inp, shadow_of(inp["grid"]))[1]: break          # not within the skipped band
+                    yield inp
+
 def gen_inputs(tier, rng):
     big = tier == "thorough"
     N = 8 if big else 1
@@ -958,7 +1092,8 @@ def gen_inputs(tier, rng):
         if g["k"] == "1d" and i % 2:
             g = native_1d(rng, g)
         else: g = add_variant(rng, g, native2d=True)
-        u = rand_ufun(rng, "V" if dec == "array" else "P", allow_drop=(i % 7 == 0))
+        g = add_sub(rng, g, p=0.4)
+        u = flag_u(rng, rand_ufun(rng, "V" if dec == "array" else "P", allow_drop=(i % 7 == 0)), g, "make")
         yield {"op": "make", "dec": dec, "grid": g, "u": u}
     # ---- project_grid
     for i in range(100 * N):
@@ -974,6 +1109,7 @@ def gen_inputs(tier, rng):
         else: u = rand_ufun(rng, "V", allow_list=False)
         if g["k"] == "1d" and i % 2: g = native_1d(rng, g)
         else: g = add_variant(rng, g, native2d=True, p_plain=0.6)
+        g = add_sub(rng, g); u = flag_u(rng, u, g, "project")
         yield {"op": "project", "grid": g, "u": u, "centre": centre, "angle": angle,
                "rpc": "default" if (i % 5 == 0 and g["k"] in ("mask", "2d")) else bool(i % 2)}
     # ---- relocate_to_radial_minimum alone
@@ -987,6 +1123,7 @@ def gen_inputs(tier, rng):
         g = add_variant(rng, g, p_plain=0.6)
         rad = ["euclid"] if i % 4 else ["ellip", rng.choice(["2", "1/2"])]
         u = rand_ufun(rng, rng.choice("VP")) if i % 3 else IDENT
+        g = add_sub(rng, g); u = flag_u(rng, u, g, "relocate")
         yield {"op": "relocate", "grid": g, "u": u, "rmin": rmin, "rad": rad}
     # ---- the stack to_X(transform(relocate(f))), plain and nested
     for i in range(120 * N):
@@ -1003,9 +1140,12 @@ def gen_inputs(tier, rng):
         if g["k"] == "1d" and i % 2: g = native_1d(rng, g)
         else: g = add_variant(rng, g, p_plain=0.6)
         if g["k"] == "1d" and dec == "vector": dec = "array"
-        u = rand_ufun(rng, "V" if dec == "array" else "P")
+        g = add_sub(rng, g)
+        u = flag_u(rng, rand_ufun(rng, "V" if dec == "array" else "P"), g, "stack")
         yield {"op": "stack", "dec": dec, "grid": g, "u": u, "rmin": rmin, "centre": [S(centre[0]), S(centre[1])],
                "angle": list(rng.choice(ANGLES)), "nested": bool(i % 2)}
+    # ---- directed sweep: every decorator stream x every accepted class x every way of being a SUBCLASS instance of it
+    yield from sub_sweep(rng, N)
     # ---- histories: grid and profile OBJECTS that live through several calls and in-place edits
     for i in range(110 * N):
         yield rand_hist(rng, force_native1d=(i % 5 == 0), kinds=("1d",) if i % 5 == 0 else ("mask", "2d", "irr", "1d", "raw"))
